@@ -32,7 +32,13 @@ Monitors
   derived       (W) copy, conjugate, dual, compose(hom), tensor, gln_adjoint,
                 subgroup, astype, change_base_ring: sigma(w) = F(rho(w)) entrywise;
                 sln_adjoint and symmetric_square basis-free (dimension, character,
-                and the product law through history-law).
+                and the product law through history-law).  On 2x2 generators also
+                compose with lie.hom.sl2_irrep(1..6) (reference: polynomial
+                multiplication), sl2_to_so21 / sl2c_to_so31 (basis-free: form,
+                character, identity component).  Workload special-values: all of
+                it on generators of exact special values (a zero in each
+                position, +-1, equal entries, monomial matrices; int / float /
+                complex dtype).
   wrapping      (W) Projective/HyperbolicRepresentation: transformation of
                 rho(w) acting on column vectors (matrix up to scalar + action on
                 a point), generators given as Transformation / Isometry objects.
@@ -55,7 +61,8 @@ from ..ref import hyp as rh
 
 ID = "C05"
 RULE = ("cases = (generator class in {real, complex, exact-integer unimodular, "
-        "stressed cond<=1e4, orthogonal}, dimension 1..5, 1..4 generators, naming "
+        "stressed cond<=1e4, orthogonal, exact special values (14 2x2 zero / unit / "
+        "equal-entry patterns, monomial matrices) x {int, float, complex}}, dimension 1..5, 1..4 generators, naming "
         "scheme, evaluation route in {rep[w], element, elements, list word}, word "
         "family: ALL words to length 4..8 (dense) or random words to length 40 "
         "with planted cancellations) x derived construction; inverse-naming map in "
@@ -374,17 +381,106 @@ def gen_matrix(rng, n, kind):
         return q, None
     if kind == "int":
         return rw.rand_unimodular(rng, n)
+    if kind in SPECIAL_KINDS:
+        return special_matrix(rng, n, kind)
     raise ValueError(kind)
 
 
-def make_rep(rng, n, names, kind, cls=None, order=None, **kwargs):
+# ---------------------------------------------------------------------------
+# exact special values.  Random matrices never have an entry that is EXACTLY
+# 0, 1 or -1, two equal entries, a determinant that is exactly one ...: closed
+# formulas for homomorphisms (binomial sums with powers of the entries, sign
+# recoveries, divisions by an entry or by the determinant) have their branch
+# points exactly there.  (Seeded change C05-r5-1: extra terms 0 * d**(negative
+# exponent) in lie.sl2_irrep, NaN as soon as the lower-right entry of a
+# generator or of its stored inverse is exactly 0.)
+
+SPECIAL_KINDS = ("special-float", "special-int", "special-complex")
+
+# 2x2 patterns: (name, f(s, t, ti) -> rows) with ti = 1/t exactly; determinant
+# exactly +1 except 'swap' / 'reflection' (-1)
+SPECIAL_2X2 = [
+    ("d=0", lambda s, t, ti: [[s, t], [-ti, 0]]),
+    ("a=0", lambda s, t, ti: [[0, t], [-ti, s]]),
+    ("a=d=0", lambda s, t, ti: [[0, t], [-ti, 0]]),
+    ("b=0", lambda s, t, ti: [[t, 0], [s, ti]]),
+    ("c=0", lambda s, t, ti: [[t, s], [0, ti]]),
+    ("b=c=0", lambda s, t, ti: [[t, 0], [0, ti]]),
+    ("identity", lambda s, t, ti: [[1, 0], [0, 1]]),
+    ("minus-identity", lambda s, t, ti: [[-1, 0], [0, -1]]),
+    ("order-6,d=0", lambda s, t, ti: [[1, -1], [1, 0]]),
+    ("order-3,a=0", lambda s, t, ti: [[0, 1], [-1, -1]]),
+    ("equal-entries", lambda s, t, ti: [[1, 1], [1, 2]]),
+    ("equal-entries-2", lambda s, t, ti: [[2, 1], [1, 1]]),
+    ("swap", lambda s, t, ti: [[0, 1], [1, 0]]),
+    ("reflection", lambda s, t, ti: [[1, 0], [0, -1]]),
+]
+_SPECIAL_ST = {
+    "special-int": ([-3, -2, -1, 0, 1, 2, 3], [(1, 1), (-1, -1)]),
+    "special-float": ([-3.0, -1.5, -1.0, -0.5, 0.0, 0.5, 1.0, 2.0, 2.5],
+                      [(1.0, 1.0), (-1.0, -1.0), (2.0, 0.5), (-0.5, -2.0), (4.0, 0.25)]),
+    "special-complex": ([0, 1, -1, 1j, -2j, 1 + 1j, 0.5 - 1j, 2],
+                        [(1, 1), (-1, -1), (1j, -1j), (-1j, 1j), (2j, -0.5j), (2, 0.5)]),
+}
+_SPECIAL_DTYPE = {"special-int": np.int64, "special-float": np.float64,
+                  "special-complex": np.complex128}
+
+
+def special_2x2(rng, kind, pattern=None):
+    """-> (name, matrix, exact inverse): one of the SPECIAL_2X2 patterns with
+    entries that are exact in the dtype (dyadic numbers, Gaussian dyadics)."""
+    ss, ts = _SPECIAL_ST[kind]
+    if pattern is None:
+        pattern = int(rng.integers(0, len(SPECIAL_2X2)))
+    name, f = SPECIAL_2X2[pattern % len(SPECIAL_2X2)]
+    s_ = ss[int(rng.integers(0, len(ss)))]
+    t, ti = ts[int(rng.integers(0, len(ts)))]
+    (a, b), (c, d) = f(s_, t, ti)
+    det = a * d - b * c                      # exactly +1 or -1
+    dt = _SPECIAL_DTYPE[kind]
+    M = np.array([[a, b], [c, d]], dtype=dt)
+    Mi = np.array([[d * det, -b * det], [-c * det, a * det]], dtype=dt)
+    return name, M, Mi
+
+
+def special_matrix(rng, n, kind, pattern=None):
+    """n x n matrix of exact special values and its exact inverse: for n = 2
+    the SPECIAL_2X2 patterns; otherwise a monomial matrix (signed / scaled
+    permutation, +-identity among them) times at most one elementary matrix."""
+    dt = _SPECIAL_DTYPE[kind]
+    if n == 2:
+        _nm, M, Mi = special_2x2(rng, kind, pattern)
+        return M, Mi
+    ss, ts = _SPECIAL_ST[kind]
+    r = rng.random()
+    perm = np.arange(n) if r < 0.25 else rng.permutation(n)
+    M = np.zeros((n, n), dtype=dt)
+    Mi = np.zeros((n, n), dtype=dt)
+    same = rng.random() < 0.3
+    pick = ts[int(rng.integers(0, len(ts)))]
+    for i in range(n):
+        t, ti = pick if same else ts[int(rng.integers(0, len(ts)))]
+        M[i, perm[i]] = t
+        Mi[perm[i], i] = ti
+    if n >= 2 and rng.random() < 0.5:
+        i, j = (int(x) for x in rng.permutation(n)[:2])
+        c = ss[int(rng.integers(0, len(ss)))]
+        E = np.eye(n, dtype=dt)
+        Ei = np.eye(n, dtype=dt)
+        E[i, j], Ei[i, j] = c, -c
+        M, Mi = M @ E, Ei @ Mi
+    return M, Mi
+
+
+def make_rep(rng, n, names, kind, cls=None, order=None, matrices=None, **kwargs):
     """library representation + reference letter table.  `order`: sequence in
-    which the generators are assigned (default: as listed)."""
+    which the generators are assigned (default: as listed).  `matrices`:
+    {name: (matrix, exact inverse or None)} chosen by the caller."""
     from geometry_tools.representation import Representation
     cls = cls or Representation
     gens, invs = {}, {}
     for g in names:
-        M, Mi = gen_matrix(rng, n, kind)
+        M, Mi = matrices[g] if matrices and g in matrices else gen_matrix(rng, n, kind)
         gens[g] = M
         if Mi is not None:
             invs[g] = Mi
@@ -1315,16 +1411,41 @@ def block_diag1(M, d):
 
 
 def wl_derived(run, rng, idx):
+    kind = ("real", "complex", "int", "real", "orthogonal")[idx % 5]
+    n = 1 + (idx // 5) % 5
+    _derived_case(run, rng, idx, kind, n)
+
+
+def wl_special(run, rng, idx):
+    """every derived construction on generators made of exact special values
+    (zeros in each position, +-1, equal entries, determinant exactly one;
+    integer, float and complex dtype).  The 2x2 pattern of the first generator
+    and the dtype follow the case index, so that the quick tier meets every
+    pattern with every dtype; two cases in three are 2x2 (the domain of the
+    SL(2) maps of lie.hom)."""
+    P = len(SPECIAL_2X2)
+    kind = SPECIAL_KINDS[(idx // P) % 3]
+    n = 2 if idx % 3 != 2 else (3, 1, 4, 5)[(idx // 3) % 4]
+    k = 1 + int(rng.integers(0, 3))
+    matrices = {}
+    if n == 2:
+        name, M, Mi = special_2x2(rng, kind, idx % P)
+        matrices["a"] = (M, Mi)
+        run.note_class("special-2x2", kind, name)
+    _derived_case(run, rng, idx, kind, n, k=k, matrices=matrices, workload="special-values")
+
+
+def _derived_case(run, rng, idx, kind, n, k=None, matrices=None, workload="derived"):
     from geometry_tools.representation import Representation
     from geometry_tools import lie
     mon = run.monitor("derived")
-    kind = ("real", "complex", "int", "real", "orthogonal")[idx % 5]
-    n = 1 + (idx // 5) % 5
-    k = 1 + int(rng.integers(0, 3))
+    if k is None:
+        k = 1 + int(rng.integers(0, 3))
     names = list("abc"[:k])
     letters = rw.alphabet(names)
-    rep, tab = make_rep(rng, n, names, kind)
-    cplx = kind == "complex"
+    rep, tab = make_rep(rng, n, names, kind, matrices=matrices)
+    cplx = kind in ("complex", "special-complex")
+    intk = kind in ("int", "special-int")
     base = {"kind": kind, "n": n, "generators": {g: tab[g] for g in names}}
 
     words = [(), (letters[0],), (letters[1],)]
@@ -1445,6 +1566,56 @@ def wl_derived(run, rng, idx):
         run.note_class("derived", label, kind, n, k)
         return sigma
 
+    def run_form(label, build, dim, chi):
+        """sigma = build() takes values in O(dim-1, 1) (form diag(-1,1,..,1)),
+        identity component, with tr sigma(w) = chi(rho(w))."""
+        case = dict(base, derived=label)
+        run.current_case = case
+        try:
+            sigma = build()
+        except Exception as e:
+            mon.fail("derived/exception:%s/%s" % (type(e).__name__, label),
+                     "%s raised %s: %s" % (label, type(e).__name__, str(e)[:120]),
+                     case, tb=traceback.format_exc())
+            return None
+        tag(sigma, label, kind)
+        J = lr.minkowski(dim)
+        normsX = rw.letter_norms(tab)
+        for j, tokens in enumerate(words):
+            route = ("getitem", "elements", "list")[j % 3]
+            case = dict(base, derived=label, word="".join(tokens), route=route)
+            run.current_case = case
+            try:
+                M = _numeric(lib_eval(sigma, tokens, route))
+            except Exception as e:
+                mon.fail("derived/exception:%s/%s-evaluate" % (type(e).__name__, label),
+                         "evaluating %s of the representation raised %s: %s"
+                         % (label, type(e).__name__, str(e)[:120]), case,
+                         tb=traceback.format_exc())
+                return sigma
+            if M.shape != (dim, dim):
+                mon.fail("derived/%s/dimension" % label, "%s has dimension %r, expected %d"
+                         % (label, M.shape, dim), case)
+                return sigma
+            sc = rw.scale(tokens, normsX) ** 2
+            if np.iscomplexobj(M):
+                mon.judge(float(np.max(np.abs(M.imag))) / sc, 1e-8,
+                          "derived/%s/real/%s" % (label, kind),
+                          "%s: sigma(w) has a non-zero imaginary part" % label, case)
+                M = M.real
+            mon.judge(float(np.max(np.abs(M.T @ J @ M - J))) / sc ** 2, 1e-8,
+                      "derived/%s/form/%s" % (label, kind),
+                      "%s: sigma(w) does not preserve diag(-1,1,..,1)" % label, case)
+            mon.judge(float(abs(np.trace(M) - chi(rho(tokens)))) / (dim * sc), 1e-8,
+                      "derived/%s/character/%s" % (label, kind),
+                      "%s: trace of sigma(w) differs from the character of rho(w)" % label, case)
+            mon.judge(float(max(0.0, 1.0 - M[0, 0])) / sc, 1e-8,
+                      "derived/%s/identity-component/%s" % (label, kind),
+                      "%s: sigma(w)[0,0] < 1 for a word in determinant-one generators"
+                      % label, case)
+        run.note_class("derived", label, kind, n, k)
+        return sigma
+
     ident = lambda M, Mi: M
     # copy
     run_value("copy", lambda: Representation(rep), ident)
@@ -1462,6 +1633,11 @@ def wl_derived(run, rng, idx):
     run_value("conjugate", lambda: rep.conjugate(C.copy()), conjF)
     run_value("conjugate(inv_mat)", lambda: rep.conjugate(C.copy(), inv_mat=Ci.copy()), conjF)
     run_value("conjugate(unwrap=False)", lambda: rep.conjugate(C.copy(), unwrap=False), conjF)
+    if kind in SPECIAL_KINDS:
+        # the conjugating matrix itself made of exact special values
+        Cs, Csi = special_matrix(rng, n, kind)
+        run_value("conjugate(special)", lambda: rep.conjugate(Cs.copy()),
+                  lambda M, Mi: Csi @ M @ Cs)
     # dual
     run_value("dual", lambda: rep.dual(), lambda M, Mi: Mi.T)
     # compose with homomorphisms written here (inputs of the program)
@@ -1485,6 +1661,9 @@ def wl_derived(run, rng, idx):
               lambda M, Mi: block_diag1(M, d))
     run_value("compose(lie.hom.gln_adjoint)", lambda: rep.compose(lie.hom.gln_adjoint()),
               lambda M, Mi: np.kron(M, Mi.T))
+    # the trivial inclusion (target dimension = source dimension: empty identity block)
+    run_value("compose(lie.hom.block_include(same))",
+              lambda: rep.compose(lie.hom.block_include(n)), ident)
     # tensor product with a second representation of the same free group
     n2 = 1 + int(rng.integers(0, 3))
     kind2 = ("real", "int", "complex")[int(rng.integers(0, 3))]
@@ -1624,11 +1803,39 @@ def wl_derived(run, rng, idx):
     run_value("subgroup(compute_inverse=False)",
               lambda: rep.subgroup(["".join(x) for x in gw], compute_inverse=False), None,
               wordmap=lambda t: subst(t, images), alphabet=rw.alphabet(sub_names))
+    # the maps of lie.hom defined on 2x2 matrices
+    if n == 2:
+        # Sym^(m-1) is multiplicative on all of M(2): no determinant condition.
+        # Reference: polynomial multiplication (lie_ref), letter by letter.
+        for m in (1, 2, 3, 4, 5, 6):
+            run_value("compose(lie.hom.sl2_irrep(%d))" % m,
+                      lambda: rep.compose(lie.hom.sl2_irrep(m)), None,
+                      Fletter=lambda M, Mi: lr.sl2_irrep_ref(M, m), by_letters=True)
+        run_value("compose(lie.hom.sl2_irrep(3),compute_inverses)",
+                  lambda: rep.compose(lie.hom.sl2_irrep(3), compute_inverses=True), None,
+                  Fletter=lambda M, Mi: lr.sl2_irrep_ref(M, 3), by_letters=True)
+        det_one = True
+        for g in names:
+            G = np.asarray(tab[g], dtype=complex)
+            det_one = det_one and abs(G[0, 0] * G[1, 1] - G[0, 1] * G[1, 0] - 1) <= 1e-12
+        # the exceptional isomorphisms are stated for determinant one; judged
+        # basis-free: preserved form, character, identity component (and the
+        # product law through the history checker: all pieces are evaluated)
+        if det_one and not cplx:
+            run_form("compose(lie.hom.sl2_to_so21)",
+                     lambda: rep.compose(lie.hom.sl2_to_so21()), 3,
+                     lambda M: np.trace(M) ** 2 - 1)
+        elif det_one and cplx:
+            run_form("compose(lie.hom.sl2c_to_so31)",
+                     lambda: rep.compose(lie.hom.sl2c_to_so31()), 4,
+                     lambda M: abs(np.trace(M)) ** 2)
+        else:
+            mon.skip("sl2_to_so21 / sl2c_to_so31: a generator is not of determinant one")
     # dtype changes
     if not cplx:
         run_value("astype(complex)", lambda: rep.astype(complex),
                   lambda M, Mi: M.astype(complex), expect_dtype=complex)
-        if kind != "int":
+        if not intk:
             run_value("astype(float32)", lambda: rep.astype(np.float32),
                       lambda M, Mi: M, expect_dtype=np.float32, tol=1e-3)
         else:
@@ -1638,7 +1845,7 @@ def wl_derived(run, rng, idx):
                   lambda M, Mi: M, expect_dtype=np.complex64, tol=1e-3)
     flush_history(run)
     if idx < 2:
-        run.sample({"workload": "derived", "kind": kind, "n": n,
+        run.sample({"workload": workload, "kind": kind, "n": n,
                     "word": "".join(words[4]), "a": tab["a"]})
 
 
@@ -2075,6 +2282,7 @@ WORKLOADS = [
     Workload("reassign", wl_reassign, quick=100, thorough=6000),
     Workload("inverse-naming", wl_naming, quick=104, thorough=4160),
     Workload("derived", wl_derived, quick=50, thorough=3000),
+    Workload("special-values", wl_special, quick=42, thorough=1680),
     Workload("wrapping", wl_wrapping, quick=32, thorough=1600),
     Workload("fox", wl_fox, quick=72, thorough=4500),
     Workload("fox-dense", wl_fox_dense, quick=4, thorough=192),
